@@ -106,6 +106,38 @@ impl Interval {
                 return Err(anyhow!("Empty interval"));
             }
         }
+        if self.stride != 0 && other.stride != 0 {
+            match compute_wide_intersection_residue_class(self, other) {
+                None => return Err(anyhow!("Empty interval")),
+                Some((stride, remainder)) if stride > u64::MAX as u128 => {
+                    // The stride is larger than the range of representable values,
+                    // so the intersection contains at most one value.
+                    let (start, end) = (start.try_to_i128().unwrap(), end.try_to_i128().unwrap());
+                    let mut candidates = Vec::new();
+                    if remainder <= i64::MAX as u128 {
+                        candidates.push(remainder as i128);
+                    }
+                    let distance_to_zero = stride - remainder;
+                    if distance_to_zero <= 1u128 << 63 {
+                        candidates.push(-(distance_to_zero as i128));
+                    }
+                    for value in candidates {
+                        if start <= value && value <= end {
+                            let value = Bitvector::from_i64(value as i64)
+                                .into_truncate(self.start.bytesize())
+                                .unwrap();
+                            return Ok(Interval {
+                                start: value.clone(),
+                                end: value,
+                                stride: 0,
+                            });
+                        }
+                    }
+                    return Err(anyhow!("Empty interval"));
+                }
+                Some(_) => (),
+            }
+        }
         if let Some((stride, remainder)) = compute_intersection_residue_class(self, other)? {
             Interval { start, end, stride }.adjust_to_stride_and_remainder(stride, remainder)
         } else {
@@ -536,78 +568,54 @@ fn compute_intersection_residue_class(
         }
         _ => (),
     }
-    // We compute everything in i128 to reduce the likelihood of integer overflows.
+    match compute_wide_intersection_residue_class(interval_left, interval_right) {
+        None => Ok(None),
+        Some((stride, remainder)) if stride <= u64::MAX as u128 => {
+            Ok(Some((stride as u64, remainder as u64)))
+        }
+        Some(_) => Err(anyhow!(
+            "The stride of the intersection is larger than u64::MAX."
+        )),
+    }
+}
+
+/// Compute the stride and the residue class of the intersection of the given intervals using the chinese remainder theorem.
+/// The inputs are required to have byte sizes not larger than 8 (= 64bit) and non-zero strides.
+///
+/// Returns `None` if the residue classes of the intervals do not intersect.
+/// Since the computed stride may be larger than [`u64::MAX`], stride and residue class are returned as `u128` values.
+fn compute_wide_intersection_residue_class(
+    interval_left: &Interval,
+    interval_right: &Interval,
+) -> Option<(u128, u128)> {
     let (stride_left, stride_right) = (interval_left.stride as i128, interval_right.stride as i128);
     // Only the (non-negative) residues of the interval starts modulo the strides matter.
-    // Negative bases would yield negative remainders in the `%` operations below.
     let (base_left, base_right) = (
         (interval_left.start.try_to_i64().unwrap() as i128).rem_euclid(stride_left),
         (interval_right.start.try_to_i64().unwrap() as i128).rem_euclid(stride_right),
     );
     // The result of the extended euclidean algorithm satisfies
     // `gcd = left_inverse * stride_left + right_inverse * stride_right`.
-    // For us most important is the equation system
-    // ```
-    // left_inverse * stride_left = 0   (modulo stride_left)
-    // left_inverse * stride_left = gcd (modulo stride_right)
-    // right_inverse * stride_right = gcd   (modulo stride_left)
-    // right_inverse * stride_right = 0     (modulo stride_right)
-    // ```
-    let (gcd, left_inverse, right_inverse) = extended_gcd(stride_left, stride_right);
+    let (gcd, left_inverse, _right_inverse) = extended_gcd(stride_left, stride_right);
 
     if base_left % gcd != base_right % gcd {
         // The residue classes do not intersect, thus the intersection is empty.
-        Ok(None)
-    } else {
-        let overflow =
-            || anyhow!("Integer overflow during chinese remainder theorem computation.");
-        let lcm = (stride_left / gcd)
-            .checked_mul(stride_right)
-            .ok_or_else(overflow)?;
-        // The residue class of the intersection is computed such that the following equations hold:
-        // ```
-        // residue_class = base_right   (modulo stride_right)
-        // residue_class = base_left    (modulo stride_left)
-        // ```
-        // The `% lcm` operations are there to reduce the risk of integer overflows
-        let summand_right = ((base_right % lcm) / gcd)
-            .checked_mul(
-                left_inverse
-                    .checked_mul(stride_left)
-                    .ok_or_else(overflow)?,
-            )
-            .ok_or_else(overflow)?
-            % lcm; // = base_right / gcd * gcd (modulo stride_right)
-        let summand_left = ((base_left % lcm) / gcd)
-            .checked_mul(
-                right_inverse
-                    .checked_mul(stride_right)
-                    .ok_or_else(overflow)?,
-            )
-            .ok_or_else(overflow)?
-            % lcm; // = base_left / gcd * gcd (modulo stride_left)
-        let residue_class = summand_right
-            .checked_add(summand_left)
-            .and_then(|sum| sum.checked_add(base_left % gcd)) // base_left % gcd = base_right % gcd
-            .ok_or_else(overflow)?;
-                               // Ensure that the residue class is not negative
-        let residue_class = residue_class.rem_euclid(lcm);
-
-        // Since we cannot rule out integer overflows for all possible inputs,
-        // we need to check the correctness of the result.
-        if lcm <= u64::MAX as i128
-            && lcm % stride_left == 0
-            && lcm % stride_right == 0
-            && (base_left - residue_class) % stride_left == 0
-            && (base_right - residue_class) % stride_right == 0
-        {
-            Ok(Some((lcm as u64, residue_class as u64)))
-        } else {
-            Err(anyhow!(
-                "Integer overflow during chinese remainder theorem computation."
-            ))
-        }
+        return None;
     }
+    // The values in the residue class of the left interval have the form `base_left + stride_left * t`.
+    // Such a value is contained in the residue class of the right interval if and only if
+    // ```
+    // (stride_left / gcd) * t = (base_right - base_left) / gcd     (modulo stride_right / gcd)
+    // ```
+    // and `left_inverse` is the inverse of `stride_left / gcd` modulo `stride_right / gcd`.
+    let modulus = stride_right / gcd;
+    let inverse = left_inverse.rem_euclid(modulus) as u128;
+    let difference = ((base_right - base_left) / gcd).rem_euclid(modulus) as u128;
+    // All factors are smaller than 2^64, so the following computations cannot overflow.
+    let t = (difference * inverse) % modulus as u128;
+    let residue_class = base_left as u128 + stride_left as u128 * t;
+    let lcm = (stride_left / gcd) as u128 * stride_right as u128;
+    Some((lcm, residue_class))
 }
 
 #[cfg(test)]
